@@ -137,6 +137,11 @@ class InducingPointKernel(Kernel):
             active_dims=self.active_dims,
         )
 
+        # The copy is in the same mode as the original (the constructor above leaves it in training mode), and its
+        # inducing points are learnable iff the original's are
+        cp.train(self.training)
+        cp.inducing_points.requires_grad_(self.inducing_points.requires_grad)
+
         if replace_inv_root:
             cp._cached_kernel_inv_root = kernel_inv_root
 
